@@ -68,6 +68,17 @@ func runRapid(cfg *Cfg) {
 		{"any+all", rapidproto.GeneratorOptions{Resolver: protoregistry.GlobalTypes, NoEmptyLists: true, DisallowNilMessages: true}.WithAnyTypes(anyTypes...)},
 		{"mapper", rapidproto.GeneratorOptions{}},
 	}
+	drawSeeds := 3
+	if cfg.Tier == "thorough" {
+		drawSeeds = 60
+	}
+	wktLines(out, cfg, 4*drawSeeds)
+	for _, t := range targets {
+		if est := expectedNodes(t.S, 0, 0, map[[2]int]float64{}); est <= 20000 {
+			// draw-level correspondence with the Lean model (RAPID_PROTOCOL.md)
+			drawLines(out, cfg, t, drawSeeds)
+		}
+	}
 	for _, t := range targets {
 		if est := expectedNodes(t.S, 0, 0, map[[2]int]float64{}); est > 20000 {
 			// the generator is exponential on types that reach themselves through repeated/map fields
